@@ -162,6 +162,7 @@ def generate(repo, g):
              'jedi/api/refactoring/extract.py:_find_inputs_and_outputs, the only condition under which a read is not '
              'looked up (checked as part of the loop shape)')
     generate_check(ext, g)
+    generate_outputs(ext, g)
     g.fp(ext, '_is_name_input')
     g.fp(ext, '_find_non_global_names')
     for s, d in [(ref, 'inline'), (ref, '_remove_indent_of_prefix'), (ext, 'extract_variable'),
@@ -280,3 +281,83 @@ def generate_check(ext, g):
     g.define('checkOtherBranch', T, triples(other), src + ', statements of the else branch')
     g.define('checkTail', T, triples(tail), src + ', statements behind the if chain (run for every node with children)')
     g.fp(ext, '_check_for_non_extractables')
+
+
+# ---------------------------------------------------------------- which bound names are handed back
+
+def generate_outputs(ext, g):
+    """_find_non_global_names (the walk over the name leaves) and _find_needed_output_variables (which of the names
+    the selection binds are used behind it) -> the data of Model/ExtractOut.lean"""
+    src = 'jedi/api/refactoring/extract.py:_find_non_global_names'
+    fn = ext.find('_find_non_global_names')
+    if u(fn.args) != 'nodes':
+        raise TieBroken('extract.py: _find_non_global_names: signature changed', u(fn.args))
+    body = [n for n in fn.body if not (isinstance(n, ast.Expr) and isinstance(n.value, ast.Constant))]
+    if len(body) != 1 or not isinstance(body[0], ast.For) or u(body[0].target) != 'node' \
+            or u(body[0].iter) != 'nodes' or body[0].orelse or len(body[0].body) != 1 \
+            or not isinstance(body[0].body[0], ast.Try):
+        raise TieBroken('extract.py: _find_non_global_names is no longer `for node in nodes: try: ...`',
+                        ' | '.join(u(b).split('\n')[0] for b in body))
+    tr = body[0].body[0]
+    if [u(x) for x in tr.body] != ['children = node.children'] or len(tr.handlers) != 1 \
+            or u(tr.handlers[0].type) != 'AttributeError' or tr.finalbody \
+            or [u(x) for x in tr.handlers[0].body] != ["if node.type == 'name':\n    yield node"]:
+        raise TieBroken('extract.py: _find_non_global_names: the leaf branch changed', u(tr))
+    # the branch for nodes with children: optional guards, then ONE recursive call; which children does it get?
+    skip_attr = False
+    rest = list(tr.orelse)
+    if not rest:
+        raise TieBroken('extract.py: _find_non_global_names: no branch for nodes with children')
+    call = rest.pop()
+    for st in rest:
+        if u(st) == "if node.type == 'trailer' and node.children[0] == '.':\n    continue":
+            skip_attr = True
+        else:
+            # anything else in front of the recursive call may change what it is called on (e.g. drop the body of
+            # a nested function): not a shape the model knows
+            raise TieBroken('extract.py: _find_non_global_names: unknown statement in front of the recursive call',
+                            u(st))
+    ok = isinstance(call, ast.Expr) and isinstance(call.value, ast.YieldFrom) \
+        and isinstance(call.value.value, ast.Call) and u(call.value.value.func) == '_find_non_global_names'
+    if not ok:
+        raise TieBroken('extract.py: _find_non_global_names: the branch for nodes with children does not end in '
+                        '`yield from _find_non_global_names(...)`', u(call))
+    c = call.value.value
+    if len(c.args) != 1 or c.keywords or u(c.args[0]) != 'children':
+        raise TieBroken('extract.py: _find_non_global_names: the recursive call no longer gets `children` alone',
+                        u(call))
+    g.define('nonGlobalSkipsAttributeTrailer', 'Bool', lean_bool(skip_attr),
+             src + ", `if node.type == 'trailer' and node.children[0] == '.': continue`")
+    g.define('nonGlobalPrunesScopeBody', 'Bool', lean_bool(False),
+             src + ', the recursive call gets all `children` of every node (no child of a nested function is left out)')
+    # _find_needed_output_variables
+    src2 = 'jedi/api/refactoring/extract.py:_find_needed_output_variables'
+    fn2 = ext.find('_find_needed_output_variables')
+    body = [u(n) for n in fn2.body if not (isinstance(n, ast.Expr) and isinstance(n.value, ast.Constant))]
+    want = ('for node in search_node.children:\n'
+            '    if node.start_pos < at_least_pos:\n'
+            '        continue\n'
+            '    return_variables = set(return_variables)\n'
+            '    for name in _find_non_global_names([node]):\n'
+            '        if not name.is_definition() and name.value in return_variables:\n'
+            '            return_variables.remove(name.value)\n'
+            '            yield name.value')
+    if u(fn2.args) != 'context, search_node, at_least_pos, return_variables' or body != [want]:
+        raise TieBroken('extract.py: _find_needed_output_variables is no longer the loop over the later children of '
+                        'search_node that yields every candidate at its first non-defining occurrence',
+                        ' | '.join(body))
+    g.define('neededOutputsWalk', 'String', lean_str('_find_non_global_names([node])'),
+             src2 + ', the names of a later sibling that are looked at (checked as part of the loop shape)')
+    g.define('neededOutputsCondition', 'String', lean_str('not name.is_definition() and name.value in return_variables'),
+             src2 + ', when a candidate is yielded (checked as part of the loop shape)')
+    # the expression in extract_function that uses it
+    ef = ext.find('extract_function')
+    uses = [n for n in ast.walk(ef) if isinstance(n, ast.Assign) and u(n.targets[0]) == 'return_variables'
+            and '_find_needed_output_variables' in u(n.value)]
+    want = ('list(_find_needed_output_variables(context, nodes[0].parent, nodes[-1].end_pos, return_variables)) '
+            'or [return_variables[-1]] if return_variables else []')
+    if len(uses) != 1 or u(uses[0].value) != want:
+        raise TieBroken('extract.py: extract_function computes the returned names differently',
+                        ' | '.join(u(n.value) for n in uses))
+    g.define('returnVariablesExpression', 'String', lean_str(want),
+             'jedi/api/refactoring/extract.py:extract_function, `return_variables = ...` for a statement selection')
